@@ -99,6 +99,13 @@ def one_load(data, flag, mode, fail_at=None, chunk_fail=None, flag_how="assign")
         E.RAISE_CONTROLLER_VALUE_ERRORS = not flag
         outer = E.override_raise_controller_value_errors(flag)
         outer.__enter__()
+    elif flag_how == "context-assign":
+        # the caller is inside an override block for the OTHER setting and has then assigned the documented module
+        # variable directly: that assignment is the setting in force when the load starts, and when it ends
+        E.RAISE_CONTROLLER_VALUE_ERRORS = flag
+        outer = E.override_raise_controller_value_errors(not flag)
+        outer.__enter__()
+        E.RAISE_CONTROLLER_VALUE_ERRORS = flag
     real_chunk = iff.Chunk
     nchunks = [0]
     if chunk_fail is not None or mode == "count-chunks":
@@ -111,7 +118,7 @@ def one_load(data, flag, mode, fail_at=None, chunk_fail=None, flag_how="assign")
         iff.Chunk = counting_chunk
     handle = None
     try:
-        if mode == "realpath":
+        if mode.startswith("realpath"):
             import tempfile
 
             fd, name = tempfile.mkstemp(prefix="rv-c18-", suffix=".sunvox")
@@ -119,9 +126,23 @@ def one_load(data, flag, mode, fail_at=None, chunk_fail=None, flag_how="assign")
             os.close(fd)
             _serve[name] = "real"
             del _opened[:]
+            # the name may be of any kind open() accepts; kinds the tree does not take as a file name are refused before
+            # anything is opened (then there is nothing to close) -- whatever it DOES open itself, it closes
+            kind = mode.partition(":")[2]
+            if kind == "bytes":
+                name_obj = os.fsencode(name)
+            elif kind == "pathlike":
+                class _Named:
+                    def __fspath__(self):
+                        return name
+                name_obj = _Named()
+            elif kind == "direntry":
+                name_obj = next(e for e in os.scandir(os.path.dirname(name)) if e.name == os.path.basename(name))
+            else:
+                name_obj = name if len(data) % 2 else pathlib.Path(name)
             _install_seams()
             try:
-                read_sunvox_file(name if len(data) % 2 else pathlib.Path(name))
+                read_sunvox_file(name_obj)
                 outcome = "returned"
             except BaseException as e:
                 outcome = "raised:" + type(e).__name__
@@ -136,7 +157,7 @@ def one_load(data, flag, mode, fail_at=None, chunk_fail=None, flag_how="assign")
                     problems.append(("library-opened-file-left-open", {"outcome": outcome}))
                     h.close()
                     break
-            if handle is None:
+            if handle is None and not kind:
                 untracked[0] += 1      # the library reached the file some other way: nothing to assert
         elif mode == "path":
             name = "/nonexistent/rv-verif-c18.sunvox"
@@ -179,7 +200,7 @@ def one_load(data, flag, mode, fail_at=None, chunk_fail=None, flag_how="assign")
         problems.append(("strictness-flag-not-restored", {"before": flag, "after": after, "outcome": outcome, "flag_how": flag_how}))
     if outer is not None:
         outer.__exit__(None, None, None)
-        if E.RAISE_CONTROLLER_VALUE_ERRORS is not (not flag):
+        if E.RAISE_CONTROLLER_VALUE_ERRORS is not ((not flag) if flag_how == "context" else flag):
             problems.append(("callers-own-override-not-unwound", {"outcome": outcome}))
         E.RAISE_CONTROLLER_VALUE_ERRORS = flag
     if outcome == "raised:ControllerValueError":
@@ -507,10 +528,17 @@ def _task(t):
                 outcome, vs = run_plan(rel, data, plan, flag, mode)
                 if mode == "fileobj" and (plan[0] in ("none", "styp", "cval", "chunk", "nested-trunc") or
                                           (isinstance(plan[1], int) and plan[1] % 8 == 0)):
-                    o2, vs2 = run_plan(rel, data, plan, flag, mode, "context")
-                    vs = vs + vs2
-                    r["evals"] += 1
-                    C.count(r, "inside-callers-override-block")
+                    for how in ("context", "context-assign"):
+                        o2, vs2 = run_plan(rel, data, plan, flag, mode, how)
+                        vs = vs + vs2
+                        r["evals"] += 1
+                        C.count(r, "inside-callers-override-block")
+                if mode == "realpath" and (plan[0] in ("none", "styp", "cval") or (isinstance(plan[1], int) and plan[1] % 16 == 0)):
+                    for kind in ("bytes", "pathlike", "direntry"):
+                        o3, vs3 = run_plan(rel, data, plan, flag, "realpath:" + kind)
+                        vs = vs + vs3
+                        r["evals"] += 1
+                        C.count(r, "other-kinds-of-file-name")
                 r["evals"] += 1
                 C.count(r, outcome.split(":")[0])
                 C.count(r, "plan-" + plan[0])
@@ -561,6 +589,7 @@ def run(ctx):
         "plans": nplans, "returned": agg.counters.get("returned", 0), "raised": agg.counters.get("raised", 0),
         "by_plan_kind": {k[5:]: v for k, v in agg.counters.items() if k.startswith("plan-")},
         "loads_inside_a_callers_override_block": agg.counters.get("inside-callers-override-block", 0),
+        "loads_by_other_kinds_of_file_name": agg.counters.get("other-kinds-of-file-name", 0),
         "path_loads_whose_handle_could_not_be_tracked": agg.counters.get("path-loads-not-tracked", 0),
         "samples": agg.samples,
     }
